@@ -270,9 +270,16 @@ def run_both(ops, exec_env=None, shards=None, exec_bin=None):
             # restart the executor after the crashing op so that the rest of the shard is
             # still answered
             rest_start = a + len(lines) + 1
-            while rest_start < b:
+            restarts = 0
+            # (a change that makes MANY ops crash or hang must not make the check run for hours:
+            # three failing ops per shard are reported, the rest of the shard is left unanswered)
+            while rest_start < b and restarts < 2:
+                restarts += 1
                 data2 = ("\n".join(ops[rest_start:b]) + "\n").encode()
-                p2 = _run_shard(EXEC, None, exec_env)
+                env2 = dict(exec_env or {})
+                if rc in (-14, 142):
+                    env2.setdefault("VERIF_OP_TIMEOUT", "5")      # a hang was seen: shorter fuse behind it
+                p2 = _run_shard(EXEC, None, env2)
                 out2, _ = p2.communicate(data2)
                 l2 = out2.decode(errors="replace").splitlines()
                 for j, l in enumerate(l2[: b - rest_start]):
